@@ -18,6 +18,7 @@ require (
 	github.com/ethereum/go-ethereum v1.14.11
 	github.com/goatnetwork/goat v0.0.0
 	github.com/supranational/blst v0.3.13
+	google.golang.org/protobuf v1.35.1
 )
 
 require (
@@ -152,7 +153,6 @@ require (
 	google.golang.org/genproto/googleapis/api v0.0.0-20240814211410-ddb44dafa142 // indirect
 	google.golang.org/genproto/googleapis/rpc v0.0.0-20240930140551-af27646dc61f // indirect
 	google.golang.org/grpc v1.67.1 // indirect
-	google.golang.org/protobuf v1.35.1 // indirect
 	gopkg.in/ini.v1 v1.67.0 // indirect
 	gopkg.in/yaml.v3 v3.0.1 // indirect
 	gotest.tools/v3 v3.5.1 // indirect
